@@ -77,8 +77,8 @@ def static_precedence(src_text):
 
 
 # sha256 of the normalised AST (docstrings removed) of the two methods, for the two known source states
-SHAPE_ORIG = "21043ebed9599fffa02feb7183ff24eba5b2916efb481e0233c1067bbc94e33a"    # snapshot e51c4e3
-SHAPE_PATCH = "4e861cca7c87ae5eec60d9f34fabd345887451b16d0ef4ed4822fa3ec91da566"   # snapshot + props/C02/fix.patch
+SHAPE_ORIG = "21043ebed9599fffa02feb7183ff24eba5b2916efb481e0233c1067bbc94e33a"    # unchanged methods
+SHAPE_PATCH = "8426306fa795a050b531394dd1848f2d95e50ac294ae215d8e435e1e34289f6f"   # snapshot + props/C02/fix.patch
 SHAPE_COMPLETE = "5cdcc117378bce64f379345e1676e607b335b0e12f28738dfa5f48a730d50b1a"   # snapshot + props/C02/fix_complete.patch.txt
 KNOWN_SHAPES = {SHAPE_ORIG: ("orig", (False, False, False, False, False)),
                 SHAPE_PATCH: ("patch", (True, True, False, True, True)),
